@@ -172,13 +172,17 @@ theorem table_wf_write : WFwrite table := by decide
 /-- Recognisers pairwise distinguishable on everything the writers produce, names unique, chain = rows. -/
 theorem table_wf_shape : WFshape table := by decide
 
-/-- The rows whose recogniser does not sit under the guard of their writer — exactly two today. -/
-theorem table_offending_parse :
-    offendingParse table = ["jingleMessageInitiationElement", "callInviteElement"] := by decide
+/-- No row has its recogniser under a different guard than its writer.  (Before /repo commit 968e727 this list was
+`["jingleMessageInitiationElement", "callInviteElement"]`: parsed in the public block, written in the sensitive one.) -/
+theorem table_offending_parse : offendingParse table = [] := by decide
 
-/-- Without those two rows the table is fully well-formed. -/
-theorem table_wf_without_defects :
-    WFtable (table.without ["jingleMessageInitiationElement", "callInviteElement"]) := by decide
+/-- No wrapper row is written by `toXml(SceSensitive)`.  (Before /repo commit 7d68095 this list was
+`["extendedAddresses"]`: `toXml` did not forward its mode to `QXmppStanza::extensionsToXml`.) -/
+theorem table_offending_toXml : offendingToXml table = [] := by decide
+
+/-- **The whole generated table is well-formed** (every row's parse guard = its write guard, no payload-class row
+written under a public or shared guard, recognisers pairwise distinguishable). -/
+theorem table_wf : WFtable table := by decide
 
 /-- No payload in the public part — today's code, all messages. -/
 theorem today_public_has_no_sensitive (m : Msg) :
@@ -190,74 +194,45 @@ theorem today_parts_partition (m : Msg) :
     (writeMode table m .all ++ fallbackCopies table m).Perm (publicPart table m ++ sensitivePart table m) :=
   parts_partition table table_wf_write m
 
-/-- `split_parse_recovers`, partial: holds today for every row except the two of `table_offending_parse`
-(missing for the full statement: `WFtable table`, false because of those rows — see the defect theorems). -/
-theorem today_split_parse_recovers_partial (m : Msg) (hv : Msg.Valid table m) (r : Row) (hr : r ∈ table.rows)
-    (hn : r.name ∉ ["jingleMessageInitiationElement", "callInviteElement"])
-    (hnb : r.writeGuard ≠ .both ∨ r.wrapper = true) :
-    (recover table m).msg r.name = m r.name :=
-  split_parse_recovers_row table table_wf_write table_wf_shape m hv r hr
-    (wfParse_of_not_offending hr (by rw [table_offending_parse]; exact hn)) hnb
+/-- **Recovery — today's code, all valid messages, every row** (rows written in both parts, i.e. the explicit
+fallback markers, aside): the receive path gives back each field, and neither step leaves an unknown extension. -/
+theorem today_split_parse_recovers (m : Msg) (hv : Msg.Valid table m) :
+    (∀ r ∈ table.rows, (r.writeGuard ≠ .both ∨ r.wrapper = true) → (recover table m).msg r.name = m r.name)
+    ∧ (recover table m).unknown = []
+    ∧ (parseMode table (publicPart table m) .pub true Msg.empty).unknown = [] :=
+  split_parse_recovers table table_wf m hv
 
-/-- witness message: only a Jingle-Message-Initiation `<propose/>` set -/
+/-- `toXml(SceSensitive)` writes exactly the envelope content — today's code, all messages: the `toXml` reading of
+"sensitive part" and the real split coincide. -/
+theorem today_toXml_sensitive_is_content (m : Msg) : writeMode table m .sens = writeExt table m .sens :=
+  toXml_sensitive_is_content table table_offending_toXml m
+
+/-! ## Non-vacuity and regression witnesses -/
+
+/-- former counterexample (fixed by 968e727): only a Jingle-Message-Initiation `<propose/>` set -/
 def jmiMsg : Msg := Msg.empty.set "jingleMessageInitiationElement"
   [{ tag := "propose", ns := "urn:xmpp:jingle-message:0", val := "jmi-1" }]
 
-/-- witness message: only a Call-Invite `<invite/>` set -/
+/-- former counterexample (fixed by 968e727): only a Call-Invite `<invite/>` set -/
 def callInviteMsg : Msg := Msg.empty.set "callInviteElement"
   [{ tag := "invite", ns := "urn:xmpp:call-invites:0", val := "ci-1" }]
 
-/-- witness message: one extended address set -/
+/-- former counterexample (fixed by 7d68095): one extended address set -/
 def addrMsg : Msg := Msg.empty.set "extendedAddresses"
   [{ tag := "addresses", ns := "http://jabber.org/protocol/address", val := "addr-1" }]
 
-theorem jmiMsg_valid : Msg.Valid table jmiMsg := by decide
-theorem callInviteMsg_valid : Msg.Valid table callInviteMsg := by decide
-theorem addrMsg_valid : Msg.Valid table addrMsg := by decide
-
-/-- **Defect (today's code).** `split_parse_recovers` is false for the generated table: the JMI element is written
-in the sensitive block but recognised only in the public block, so the receive path loses it — the field stays
-empty and the element ends up among the unknown extensions. -/
-theorem C17_defect_jingleMessageInitiationElement :
-    ¬ (∀ m, Msg.Valid table m →
-        (recover table m).msg "jingleMessageInitiationElement" = m "jingleMessageInitiationElement") := by
-  intro h
-  have := h jmiMsg jmiMsg_valid
-  revert this
-  decide
-
-/-- …what happens instead, concretely. -/
-theorem C17_defect_jingleMessageInitiationElement_witness :
-    sensitivePart table jmiMsg = jmiMsg "jingleMessageInitiationElement"
-    ∧ (recover table jmiMsg).msg "jingleMessageInitiationElement" = []
-    ∧ (recover table jmiMsg).unknown = jmiMsg "jingleMessageInitiationElement" := by decide
-
-/-- **Defect (today's code).** Same for the Call-Invite element. -/
-theorem C17_defect_callInviteElement :
-    ¬ (∀ m, Msg.Valid table m → (recover table m).msg "callInviteElement" = m "callInviteElement") := by
-  intro h
-  have := h callInviteMsg callInviteMsg_valid
-  revert this
-  decide
-
-theorem C17_defect_callInviteElement_witness :
-    sensitivePart table callInviteMsg = callInviteMsg "callInviteElement"
-    ∧ (recover table callInviteMsg).msg "callInviteElement" = []
-    ∧ (recover table callInviteMsg).unknown = callInviteMsg "callInviteElement" := by decide
-
-/-- **Defect (today's code), `toXml` reading of "sensitive part".** `QXmppMessage::toXml` does not forward its mode
-to `QXmppStanza::extensionsToXml`, so `toXml(SceSensitive)` also writes `<addresses/>`: the element is in both
-`toXml` parts, and parsing `toXml(ScePublic)` then `toXml(SceSensitive)` into one object yields the addresses twice.
-(The real split — `serializeExtensions` for the sensitive part — is not affected: `today_split_parse_recovers_partial`
-covers `extendedAddresses`.) -/
-theorem C17_defect_extendedAddresses_toXml :
-    offendingToXml table = ["extendedAddresses"]
-    ∧ writeMode table addrMsg .pub = addrMsg "extendedAddresses"
-    ∧ writeMode table addrMsg .sens = addrMsg "extendedAddresses"
-    ∧ (recoverToXml table addrMsg).msg "extendedAddresses"
-        = addrMsg "extendedAddresses" ++ addrMsg "extendedAddresses" := by decide
-
-/-! ## Non-vacuity -/
+/-- The three former counterexamples are valid messages and now behave as the property demands: the element is in
+the sensitive part only and comes back through the receive path; the address is in the public part only and is
+read once, also through the `toXml`/`parse` pair. -/
+example :
+    Msg.Valid table jmiMsg ∧ publicPart table jmiMsg = []
+    ∧ (recover table jmiMsg).msg "jingleMessageInitiationElement" = jmiMsg "jingleMessageInitiationElement"
+    ∧ (recover table jmiMsg).unknown = []
+    ∧ Msg.Valid table callInviteMsg
+    ∧ (recover table callInviteMsg).msg "callInviteElement" = callInviteMsg "callInviteElement"
+    ∧ (recover table callInviteMsg).unknown = []
+    ∧ Msg.Valid table addrMsg ∧ writeMode table addrMsg .sens = []
+    ∧ (recoverToXml table addrMsg).msg "extendedAddresses" = addrMsg "extendedAddresses" := by decide
 
 /-- a message with a public, a sensitive, a list-valued, a fallback and a wrapper field set -/
 def sampleMsg : Msg :=
@@ -267,27 +242,23 @@ def sampleMsg : Msg :=
       "extendedAddresses" [{ tag := "addresses", ns := "http://jabber.org/protocol/address", val := "a" }]).set
       "e2eeFallbackBody" [{ tag := "body", ns := "", val := "fb" }]
 
-/-- The hypotheses of the generic theorems are met by a real table (today's minus the two defective rows) and a
-non-trivial valid message, and the three parts are what one expects. -/
-def goodTable : Table := table.without ["jingleMessageInitiationElement", "callInviteElement"]
-
+/-- The hypotheses of the generic theorems and of `today_split_parse_recovers` are met by a non-trivial message, and
+the three parts are what one expects. -/
 example :
-    WFtable goodTable ∧ Msg.Valid goodTable sampleMsg
-    ∧ (publicPart goodTable sampleMsg).map (·.val) = ["fb", "h1", "h2", "f", "a"]
-    ∧ (sensitivePart goodTable sampleMsg).map (·.val) = ["b", "f"]
-    ∧ (writeMode goodTable sampleMsg .all).map (·.val) = ["h1", "h2", "b", "f", "a"]
-    ∧ (fallbackCopies goodTable sampleMsg).map (·.val) = ["fb", "f"]
-    ∧ (recover goodTable sampleMsg).msg "body" = sampleMsg "body" := by decide
+    Msg.Valid table sampleMsg
+    ∧ (publicPart table sampleMsg).map (·.val) = ["fb", "h1", "h2", "f", "a"]
+    ∧ (sensitivePart table sampleMsg).map (·.val) = ["b", "f"]
+    ∧ (writeMode table sampleMsg .all).map (·.val) = ["h1", "h2", "b", "f", "a"]
+    ∧ (fallbackCopies table sampleMsg).map (·.val) = ["fb", "f"]
+    ∧ (recover table sampleMsg).msg "body" = sampleMsg "body"
+    ∧ (recover table sampleMsg).msg "hints" = sampleMsg "hints" := by decide
 
-/-- `today_split_parse_recovers_partial` is not vacuous either: `sampleMsg` is valid for today's full table. -/
-example : Msg.Valid table sampleMsg ∧ (recover table sampleMsg).msg "hints" = sampleMsg "hints" := by decide
-
-/-- `toXml_sensitive_is_content`'s hypothesis is satisfiable: a table whose wrapper row is guarded `pub`. -/
+/-- The predicates can fail, and name the row: the pre-968e727 guard of the JMI recogniser, the pre-7d68095 guard of
+the addresses writer, and a payload row moved to the unguarded tail are each rejected. -/
 example :
-    offendingToXml { rows := [{ r_extendedAddresses with writeGuard := .pub }], parse := [] } = [] := by decide
-
-/-- `WFwrite` can fail: a payload row moved to the unguarded tail is rejected and named. -/
-example :
-    offendingWrite { rows := [{ r_body with writeGuard := .both }], parse := [] } = ["body"] := by decide
+    offendingParse { rows := [{ r_jingleMessageInitiationElement with parseGuard := .pub }], parse := [] }
+      = ["jingleMessageInitiationElement"]
+    ∧ offendingToXml { rows := [{ r_extendedAddresses with writeGuard := .both }], parse := [] } = ["extendedAddresses"]
+    ∧ offendingWrite { rows := [{ r_body with writeGuard := .both }], parse := [] } = ["body"] := by decide
 
 end Qx.C17
